@@ -6,5 +6,5 @@ import NakenVerif.Props.C12
 -- import NakenVerif.Props.C07   -- temporarily out: model being updated to the fence fix
 -- import NakenVerif.Props.C08   -- temporarily out: model being updated to the fence fix
 import NakenVerif.Props.C10
--- import NakenVerif.Props.C11   -- temporarily out: model being updated to a fix
+import NakenVerif.Props.C11
 import NakenVerif.Props.C02
